@@ -134,6 +134,9 @@ class Crazyflie():
         self._answer_patterns = {}
 
         self._send_lock = Lock()
+        # Link errors reported by the driver from inside send_packet, per
+        # sending thread, see _link_error_cb
+        self._sender_errors = {}
 
         self.connected_ts = None
 
@@ -212,6 +215,13 @@ class Crazyflie():
         """Called from the link driver when there's an error"""
         logger.warning('Got link error callback [%s] in state [%s]',
                        errmsg, self.state)
+        pending = self._sender_errors.get(current_thread())
+        if pending is not None:
+            # Reported by the driver from inside send_packet in this thread,
+            # which holds the send lock. The callbacks below may send packets
+            # or wait for threads that do: handle it when the lock is released.
+            pending.append(errmsg)
+            return
         link = self.link
         if (link is not None):
             link.close()
@@ -355,6 +365,7 @@ class Crazyflie():
             raise Exception('Data part of packet is too large')
 
         self._send_lock.acquire()
+        sender_errors = self._sender_errors[current_thread()] = []
         try:
             # The link can be closed and opened again by other threads while we are
             # in here, look at it (and its pending answers) once
@@ -396,7 +407,10 @@ class Crazyflie():
                 link.send_packet(pk)
                 self.packet_sent.call(pk)
         finally:
+            del self._sender_errors[current_thread()]
             self._send_lock.release()
+            for errmsg in sender_errors:
+                self._link_error_cb(errmsg)
 
     def is_called_by_incoming_handler_thread(self):
         return current_thread() == self.incoming
